@@ -80,6 +80,26 @@ def main(tier):
         for r in reports[:3]:
             chk.violation("asan:report", "AddressSanitizer report in the front end: " + r.read_text()[:300], {"log": r.read_text()[:3000]})
         shutil.rmtree(logd, ignore_errors=True)
+    # nesting depth: a dimension the other workloads do not reach (recursive descent + recursive analysis)
+    from ..tools import Probe
+    for profile in ("release", "dev"):
+        p = Probe(profile)
+        for shape in ("paren", "opt"):
+            for n in (50, 300, 1000, 3000, 10000, 50000):
+                o, c = ("(", ")") if shape == "paren" else ("[", "]")
+                text = "token A;\nstart s;\ns: " + o * n + "A" + c * n + ";\n"
+                rep = p.ask("front", text=text)
+                total += 1
+                chk.count("deep_nesting_texts")
+                wit = {"text": f"<{shape} nested {n} deep>", "shape": shape, "depth": n, "profile": profile}
+                if "died" in rep:
+                    chk.violation("deep-nesting:process-died", f"front end dies (rc={rep['died']}: stack overflow) on {shape} nested {n} deep ({profile})", wit)
+                    p = Probe(profile)
+                elif rep.get("panic"):
+                    chk.violation("deep-nesting:panic", f"front end panics on {shape} nested {n} deep ({profile}): {rep['panic'].get('msg', '')[:100]}", wit)
+                elif rep.get("bad_spans") or rep.get("emit_err"):
+                    chk.violation("deep-nesting:bad-span", f"bad diagnostic span / rendering on {shape} nested {n} deep ({profile})", wit)
+        p.close()
     chk.evaluations = total
     # distinct non-trivial: measured in the release pass only (the dev pass repeats the same texts)
     chk.nontrivial = set(range(with_diags))
